@@ -98,7 +98,7 @@ def correspondence_nl(ctx, n):
     specs = [NL.gen_nested_model(rng) for _ in range(n)]
     mod = NL.write_module(f'c11_{ctx["seed"]}_{ctx["tier"]}', specs)
     tol, maxit, itol, imaxit = 2.0 ** -27, 12, 2.0 ** -30, 10
-    hdr = NL.HEADER.replace('Model.NLSolve.', 'Model.NLSolve Model.NLNested.')
+    hdr = NL.HEADER.replace('Model.NLSolve.', 'Model.NLSolve Model.NLNested Proofs.NLNestedProofs.')
     exprs, meta, dis = [], [], []
     stats = dict(built=0, steady_state_failed=0, converged=0, raised_no_convergence=0, outer_iterations={}, steps_replayed=0, inner_iteration_mismatch=0, model_none=0, no_outer_unknowns=0, two_inner_blocks=0)
     for mi, spec in enumerate(specs):
@@ -138,7 +138,7 @@ def correspondence_nl(ctx, n):
             except Exception as ex:
                 r = f'raised {type(ex).__name__}: {str(ex)[:120]}'
             outs = sorted(int(k[1:]) for k in r) if not isinstance(r, str) else []
-            exprs.append(f'option_map (fun r => (r, true, @None (list (list (Z * Z))))) (run_nn_eval {fixed} {NL.coq_devs([(int(z[1:]), p) for z, p in shocks.items()])} {C.coq_list(outs, str)})')
+            exprs.append(f'(wf_progb {N} (flatten {prog}) && wf_nprogb {N} {prog}, option_map (fun r => (r, true, @None (list (list (Z * Z))))) (run_nn_eval {fixed} {NL.coq_devs([(int(z[1:]), p) for z, p in shocks.items()])} {C.coq_list(outs, str)}))')
             meta.append((case, 0, [(None, r)], outs, U, Tg, None, 'evaluated'))
             continue
         trace = []
@@ -166,14 +166,21 @@ def correspondence_nl(ctx, n):
         outs = sorted(set(int(k[1:]) for k in trace[0][1]))
         for k in sorted(set([0, len(trace) - 1])):
             Uk = [trace[k][0][u] for u in U]
-            exprs.append(f'run_nn_step {fixed} {C.coq_list([int(u[1:]) for u in U], str)} {C.coq_list([int(t[1:]) for t in Tg], str)} '
-                         f'{NL.coq_devs([(int(z[1:]), p) for z, p in shocks.items()])} {NL.qf(tol)} {C.coq_list(Uk, lambda p: C.coq_list(p, NL.qf))} {C.coq_list(outs, str)}')
+            exprs.append(f'(wf_progb {N} (flatten {prog}) && wf_nprogb {N} {prog}, run_nn_step {fixed} {C.coq_list([int(u[1:]) for u in U], str)} {C.coq_list([int(t[1:]) for t in Tg], str)} '
+                         f'{NL.coq_devs([(int(z[1:]), p) for z, p in shocks.items()])} {NL.qf(tol)} {C.coq_list(Uk, lambda p: C.coq_list(p, NL.qf))} {C.coq_list(outs, str)})')
             meta.append((case, k, trace, outs, U, Tg, ret, outcome))
     vals, logs = C.eval_in_coq('C11', hdr, exprs, chunk=2, tag='nnl')
     F = NL.frac
     for (case, k, trace, outs, U, Tg, ret, outcome), vm in zip(meta, vals):
+        if vm is None:
+            continue
+        wf, vm = vm
+        if not wf:
+            dis.append(dict(what='a generated nesting is not well-formed in the sense of the theorem (harness)', case=case))
+            continue
+        stats['well_formed'] = stats.get('well_formed', 0) + 1
         if vm is None or vm == 'None':
-            stats['model_none'] += 1      # the exact inner solve stopped at another iteration count than the floating-point one, or a singular system
+            stats['model_none'] += 1      # the exact inner solve did not converge within the limit, or a singular system
             continue
         body = vm[1] if isinstance(vm, tuple) and len(vm) == 2 and vm[0] == 'Some' else vm
         res_m, ok_m, nxt_m = body
